@@ -399,6 +399,7 @@ func execC01(t *testing.T, prog *hx.Program, dec *simrt.Decider, verbose bool) *
 		}
 		// quiesce: every live reader must have caught up with what it is entitled to
 		if !h.stop {
+			h.s.SetTimeSkips(false) // (the second below is meant for the runnable readers, not for the clock alone)
 			simrt.Sleep(time.Second)
 			for _, lr := range c.readers {
 				end := h.next - 1
